@@ -108,18 +108,18 @@ def check_chart(ctx, schedule, ax, want, xlim, labels, where):
     leg = ax.get_legend()
     handles = list(leg.legend_handles) if leg is not None else []
     texts = [t.get_text() for t in leg.get_texts()] if leg is not None else []
-    colour_of_label = {}
-    for h, t in zip(handles, texts):
-        colour_of_label[t] = tuple(round(float(c), 6) for c in h.get_facecolor())
     jobs_present = sorted({j for _, _, _, j in want})
     want_labels = [labels[j] if labels else f"Job {j}" for j in jobs_present]
     if texts != want_labels:
         ctx.violation("c20_legend_entries", dict(w, got=texts, want=want_labels))
         return
-    if len(set(colour_of_label.values())) != len(colour_of_label):
-        ctx.violation("c20_legend_colours_not_one_to_one", dict(w, colours=list(colour_of_label.values())))
-    exp = sorted((1.0 + 10 * m, 10.0 + 10 * m, float(s), float(e),
-                  colour_of_label[labels[j] if labels else f"Job {j}"]) for m, s, e, j in want)
+    # one legend entry per scheduled job, in job order (two jobs may carry the same label text)
+    colour_of_job = {j: tuple(round(float(c), 6) for c in h.get_facecolor())
+                     for j, h in zip(jobs_present, handles)}
+    if len(set(colour_of_job.values())) != len(colour_of_job):
+        ctx.violation("c20_legend_colours_not_one_to_one", dict(w, colours=list(colour_of_job.values())))
+    exp = sorted((1.0 + 10 * m, 10.0 + 10 * m, float(s), float(e), colour_of_job[j])
+                 for m, s, e, j in want)
     if sorted(bars) != exp:
         ctx.violation("c20_bars_differ_from_schedule",
                       dict(w, got=[b[:4] for b in sorted(bars)][:12], want=[b[:4] for b in exp][:12],
@@ -153,6 +153,9 @@ def run_chart(ctx, case):
     xlim = {None: None, "plus": mk + rng.randint(1, 7), "big": mk * 3 + 10,
             "minus": max(1, mk - rng.randint(1, max(1, mk // 2)))}[case["xlim"]]
     labels = [f"J<{j}>" for j in range(r.num_jobs)] if case["labels"] else None
+    if labels and case["seed"] % 2 and r.num_jobs >= 2:
+        labels = [f"family {j // 2}" for j in range(r.num_jobs)]     # two jobs share a label text
+        ctx.count("charts_with_repeated_label_texts")
     fig, ax = plot_gantt_chart(run.d.schedule, xlim=xlim, job_labels=labels, cmap_name=case["cmap"],
                                number_of_x_ticks=rng.choice([15, 3, 7]))
     fig2 = None
